@@ -2,7 +2,6 @@
 use crate::harness::*;
 use crate::ops::*;
 use crate::run::RunOpts;
-use orx_verif_shim::SpinMode;
 use std::collections::BTreeSet;
 
 #[derive(Clone, Copy, PartialEq, Eq, Debug)]
@@ -114,7 +113,7 @@ fn complete2() -> RunOpts {
     RunOpts::default()
 }
 fn bounded(b: usize) -> RunOpts {
-    RunOpts { bound: Some(b), spin: SpinMode::Fast, ..RunOpts::default() }
+    RunOpts { bound: Some(b), ..RunOpts::default() }
 }
 
 fn cat(a: &[Plan], b: &[Plan]) -> Vec<Plan> {
